@@ -12000,7 +12000,11 @@ CK_RV SoftHSM::CreateObject(CK_SESSION_HANDLE hSession, CK_ATTRIBUTE_PTR pTempla
 	rv = p11object->saveTemplate(token, isPrivate != CK_FALSE, attribs,attribsCount,op);
 	delete p11object;
 	if (rv != CKR_OK)
+	{
+		// The template was rejected: remove the object that was created for it
+		object->destroyObject();
 		return rv;
+	}
 
 	if (op == OBJECT_OP_CREATE)
 	{
@@ -12009,6 +12013,7 @@ CK_RV SoftHSM::CreateObject(CK_SESSION_HANDLE hSession, CK_ATTRIBUTE_PTR pTempla
 		    !object->setAttribute(CKA_LOCAL, false) ||
 		    !object->commitTransaction()))
 		{
+			object->destroyObject();
 			return CKR_GENERAL_ERROR;
 		}
 
@@ -12019,6 +12024,7 @@ CK_RV SoftHSM::CreateObject(CK_SESSION_HANDLE hSession, CK_ATTRIBUTE_PTR pTempla
 		    !object->setAttribute(CKA_NEVER_EXTRACTABLE, false) ||
 		    !object->commitTransaction()))
 		{
+			object->destroyObject();
 			return CKR_GENERAL_ERROR;
 		}
 	}
